@@ -113,6 +113,10 @@ cosh = _mathfun_real(math.cosh, cmath.cosh)
 sinh = _mathfun_real(math.sinh, cmath.sinh)
 tanh = _mathfun_real(math.tanh, cmath.tanh)
 
+acosh = _mathfun(math.acosh, cmath.acosh)
+asinh = _mathfun_real(math.asinh, lambda z: cmath.asinh(_imag_axis_cut(z)))
+atanh = _mathfun(math.atanh, lambda z: cmath.atanh(_real_axis_cut(z)))
+
 floor = _mathfun_real(math.floor,
     lambda z: complex(math.floor(z.real), math.floor(z.imag)))
 ceil = _mathfun_real(math.ceil,
